@@ -1,5 +1,6 @@
 import MlModel.Model.Registry
 import MlModel.Model.Owner
+import MlModel.Model.OwnerEnv
 /-!
 Counter-examples on the models of the **unchanged** code for the three C20 findings (all repaired by
 `fix:` commits; the property theorems are about the repaired operations), plus the reason for the
@@ -82,5 +83,43 @@ theorem C20_exit_shared_acquirer :
     let fin := runSched pw c0 (List.replicate 6 (0, u) ++ List.replicate 10 (1, u) ++ List.replicate 10 (0, u))
     (fin.T 0).cur = none ∧ (fin.T 0).exited = some 0 ∧ acquiredWorkers pw fin.W 0 = [0] := by
   decide
+
+section AsCompleted
+open Owner OwnerEnv
+
+/-- `as_completed(pool 0, [one task])` over worker 0 (alive, `max_parallelism` 2) with the prophecy script `script`. -/
+def acCfg (fixed : Bool) (script : List Op) : X :=
+  ⟨⟨fun _ => {}, fun t => if t = 0 then { script := script } else {}⟩,
+   { reg := fun a => if a = 0 then some (some 1000) else none, now := 1000, thr := 100, mp := fun _ => 2,
+     prog := fun t => if t = 0 then [.asCompleted 0 [false] false none fixed] else [] }⟩
+
+/-- the pieces of the first round of the loop: the task is submitted to worker 0, the iterator is found exhausted, the task is
+still running, `acquired_workers` = [worker 0] -/
+def acRound1 : List Op :=
+  [.aliveWorkers 0 false, .aliveWorkers 0 false, .nextIdle 0 [0] true, .submitW 0 0 0, .nextIdle 0 [0] true, .isAliveW 0 0,
+   .acquiredWorkers 0]
+
+/-- (workers of `running_tasks`, state of the future of the first of them) of a controller in the body of `as_completed` -/
+def acRunning (x : X) : Option (List Wid × CSt) :=
+  match x.env.ctl 0 with
+  | .ac a => some (a.running.map (·.w), (a.running.head?.map fun r => x.env.callSt r.call).getD .ok)
+  | _ => none
+
+set_option maxRecDepth 100000 in
+/-- **F-C20-release-empty-set** (model of the UNREPAIRED control flow, `fixed = false`).  After the submit loop every acquired
+worker runs a task, so `unused_workers = acquired - running - reserved` is EMPTY — and `release_all(set())` means
+`release_all()` : 59 steps into the run worker 0 is free (`_lock` released, no owner) although the pool's only task is still
+running on it (its future is `queued`) and stays in `running_tasks`; any other pool can now acquire the worker.  The repaired
+code (`fixed = true`, `if unused_workers:`) skips the call: after the same 59 steps the pool still owns the worker.
+(Closed by evaluation; the real code is replayed against the same program by `./check C20`, family `scheda`.) -/
+theorem C20_as_completed_empty_release :
+    let pw : Pid → List Wid := fun _ => [0]
+    let bad := xrun pw (acCfg false (acRound1 ++ [.releaseAll 0 []])) (List.replicate 59 0)
+    let good := xrun pw (acCfg true (acRound1 ++ [.aliveWorkers 0 false])) (List.replicate 59 0)
+    (acRunning bad = some ([0], .queued) ∧ (bad.base.W 0).pool = none ∧ (bad.base.W 0).lock = false) ∧
+    (acRunning good = some ([0], .queued) ∧ (good.base.W 0).pool = some 0 ∧ (good.base.W 0).lock = true) := by
+  decide +kernel
+
+end AsCompleted
 
 end MlModel.Witness
